@@ -1,4 +1,5 @@
 //! simrw — deterministic simulation with fault injection for dd-native-iast-rewriter-js (Rust side).
+mod c13;
 mod c16;
 mod driver;
 mod exec;
@@ -11,7 +12,7 @@ mod smap;
 use driver::{Engine, Tier};
 
 fn engines() -> Vec<&'static dyn Engine> {
-    vec![&c16::C16]
+    vec![&c13::C13, &c16::C16]
 }
 
 fn usage() -> i32 {
